@@ -1427,6 +1427,44 @@ attr_assignments_re = re.compile(
     attr_assignment_pair + r"""(""" + attr_assignment_pair + r""")*\s*$"""
 )  # to account for spaces between entities
 
+# The pieces of attr_assignment_pair, for attr_assignments_match()
+_attr_name_re = re.compile(r"""\s*[^"'>/=\0-\037\s]+\s*=\s*""")
+_attr_quoted_value_re = re.compile(r""""[^"]*"|'[^']*'""")
+_attr_unquoted_value_re = re.compile(r"""[^"'<>`\s]+""")
+_attr_end_re = re.compile(r"""\s*$""")
+
+
+def attr_assignments_match(text: str) -> bool:
+    """Returns True if ``text`` matches attr_assignments_re.  An unquoted
+    value may be followed by the next assignment without a blank in between
+    (a=bc=d), so the regular expression can end such a value at any of its
+    characters; when the text as a whole does not match, the regular
+    expression engine tries all combinations of these positions, which takes
+    time exponential in the number of assignments.  This function follows
+    the same grammar but visits every position at most once."""
+    seen: set[int] = set()
+    todo = [0]
+    while todo:
+        m = _attr_name_re.match(text, todo.pop())
+        if m is None:
+            continue
+        pos = m.end()
+        ends: list[int] = []
+        m = _attr_quoted_value_re.match(text, pos)
+        if m is not None:
+            ends.append(m.end())
+        m = _attr_unquoted_value_re.match(text, pos)
+        if m is not None:
+            ends.extend(range(pos + 1, m.end() + 1))
+        for end in ends:
+            if end in seen:
+                continue
+            seen.add(end)
+            if _attr_end_re.match(text, end) is not None:
+                return True
+            todo.append(end)
+    return False
+
 
 def check_for_attributes(ctx: "Wtp", node: WikiNode) -> tuple[bool, str]:
     """Check if the children of this node conform to the format of
@@ -1458,7 +1496,7 @@ def check_for_attributes(ctx: "Wtp", node: WikiNode) -> tuple[bool, str]:
         # parsing function and empty node.children, you're leaving
         # 'alive' a newline that used to be killed. This is why the
         # tests failed because of 'extra' newlines.
-    if re.match(attr_assignments_re, candidate):
+    if attr_assignments_match(candidate):
         return (True, candidate)
     return (False, "")
 
